@@ -422,6 +422,11 @@ def request(case, src, pre, raw, gen_by, date):
             "compress": case["compress"]}
 
 
+def unsorted_view(cs):
+    ip, ix = cs["indptr"], cs["indices"]
+    return any(ix[k] > ix[k + 1] for a, b in zip(ip, ip[1:]) for k in range(a, b - 1))
+
+
 def nontrivial(src):
     return len(src["obs"]) >= 2 and len(src["samp"]) >= 2 and any(v != "0" for r in src["rows"] for v in r)
 
@@ -443,6 +448,8 @@ def check_case(ctx, case, tmp=TMP):
     ctx.case({"src": src, "gen": gen_by, "date": req["date"], "raw": raw}, nontrivial=nontrivial(src))
     for tg in tags:
         ctx.count(tg)
+    if unsorted_view(req["csr"]) or unsorted_view(req["csc"]):
+        ctx.count("file holds a view with unsorted indices")
     ctx.count("shape=%s" % ("0xM" if not src["obs"] else "Nx0" if not src["samp"] else
                              "all-zero" if not any(v != "0" for r_ in src["rows"] for v in r_) else "NxM"))
     for ax in ("omd", "smd"):
@@ -479,6 +486,37 @@ CORPUS = [
      "route": "csr_zeros", "perm_seed": 0, "generated_by": "x", "compress": True, "date": None, "ogmd": None,
      "sgmd": None, "writer": "to_hdf5"},
 ]
+
+
+def _edge(omd=None, smd=None, **kw):
+    spec = {"obs": ["o1", "o2", "o3"], "samp": ["s1", "s2"], "rows": [[1.0, 0.0], [0.0, 2.5], [3.0, 4.0]],
+            "omd": omd, "smd": smd, "type": kw.get("type"), "table_id": kw.get("table_id")}
+    return {"spec": spec, "route": "dense", "perm_seed": 0, "generated_by": "x", "compress": False,
+            "date": [2020, 1, 2, 3, 4, 5, 0], "ogmd": None, "sgmd": None, "writer": "to_hdf5"}
+
+
+# inputs OUTSIDE the property's domain: only the agreement of model and code is checked on them (the
+# model transcribes these branches too); what `holds` says about them is recorded in the distribution
+EDGE = {
+    "flat-taxonomy-text": _edge(omd=[{"taxonomy": "k__A; p__x"}, {"taxonomy": "k__B"}, {"taxonomy": " k__C ;p__y; c__z "}]),
+    "none-under-hierarchical-name": _edge(omd=[{"taxonomy": ["k__A", "p__x"]}, {"taxonomy": None}, {"taxonomy": ["k__C"]}]),
+    "empty-text-inside-list": _edge(omd=[{"taxonomy": ["k__A", "", "c__x"]}, {"taxonomy": ["k__B"]}, {"taxonomy": ["", "p__"]}]),
+    "list-under-plain-name": _edge(omd=[{"lineage": ["a", "b"]}, {"lineage": ["c"]}, {"lineage": ["d", "e"]}]),
+    "empty-table-id": _edge(table_id=""),
+    "none-next-to-text": _edge(smd=[{"grp": None}, {"grp": "b"}]),
+    "empty-lists": _edge(omd=[{"taxonomy": []}, {"taxonomy": []}, {"taxonomy": []}]),
+}
+
+
+def edge_stream(ctx, tmp=TMP):
+    for name, case in EDGE.items():
+        src, pre, raw, gen_by, date = write_and_read_raw(case, tmp, tag="e")
+        r = ctx.driver.ask(request(case, src, pre, raw, gen_by, date))
+        ctx.case({"edge": name, "raw": raw}, nontrivial=False)
+        ctx.count("out-of-domain(agreement only):%s:holds=%s" % (name, r["holds"]))
+        if not r["agree"]:
+            ctx.diverge({"case": case, "edge": name}, "raw tree differs from toH5 (out-of-domain input)", ["edge=" + name],
+                        detail={"model": r["model"], "raw": r["raw_canon"]})
 
 
 def cli_case(ctx, case, tmp=TMP):
@@ -546,6 +584,7 @@ def run(ctx):
         for _ in range(12 if ctx.quick() else 200):
             case = gen_case(ctx.rng, ctx.quick(), empty_axes=False)
             cli_case(ctx, case)
+        edge_stream(ctx)
     finally:
         shutil.rmtree(TMP, ignore_errors=True)
 
